@@ -101,3 +101,14 @@ Theorem C20_singular_float64_repeated_column_partial : forall a b : vecF,
   is_zero64 (detF (M a a b)) = true /\ inverseF (M a a b) = None.
 Proof. exact det_repeated_first_float. Qed.
 Print Assumptions C20_singular_float64_repeated_column_partial.
+
+(* second layout (partial in the same sense): first and third columns coincide *)
+Theorem C20_singular_float64_outer_columns_partial : forall a b : vecF,
+  let x := mul64 (v1 b) (v2 a) in let y := mul64 (v1 a) (v2 b) in let U := sub64 x y in
+  BinarySingleNaN.is_finite (v0 a) = true -> BinarySingleNaN.is_finite (v0 b) = true ->
+  BinarySingleNaN.is_finite x = true -> BinarySingleNaN.is_finite y = true ->
+  BinarySingleNaN.is_finite U = true -> BinarySingleNaN.is_finite (mul64 (v0 a) U) = true ->
+  BinarySingleNaN.is_finite (mul64 (v1 a) (v2 a)) = true ->
+  is_zero64 (detF (M a b a)) = true /\ inverseF (M a b a) = None.
+Proof. exact det_repeated_outer_float. Qed.
+Print Assumptions C20_singular_float64_outer_columns_partial.
